@@ -25,7 +25,14 @@ RULE = ("Well-shaped triangulated surfaces (min angle >= 8 deg): closed bases (t
         "object, flag_singularities after each; every one of them must pass every oracle above and, on the constrained-solve "
         "path, equal the field and the singularity indices obtained on a fresh mesh. The laplacian sub-check builds both element "
         "kinds and both weightings on one mesh object and compares with a fresh mesh. "
-        "non-trivial = the mesh has >=1 free element and (order != 4 or features on) [laplacian sub-check: an interior edge and "
+        "Read-out histories: every field case draws the order of the public read-outs (flag_singularities, export_as_mesh "
+        "first / twice / in between); every flag must give quantised indices summing to 4*chi and agree with the first one, "
+        "every export must be the field's frames (centre, |var| * mean edge length / 3, directions whose order-th power is var in "
+        "the basis read before the export), and var / the connection must come back untouched; in 'sequence' the earlier field "
+        "objects are re-inspected and re-flagged after the later ones. Sub-check 'large': jittered panels with 2600-3400 free "
+        "vertices (or 2700-3300 free faces), n_smooth = 0, harmonic extension recomputed with a sparse direct solve and a "
+        "1-norm condition estimate (size regimes above any internal threshold). "
+        "non-trivial = the mesh has >=1 free element and (order != 4 or features on) [large: > 2500 free elements; laplacian sub-check: an interior edge and "
         "order != 4; sequence: >=2 distinct (elements, order) steps and an interior edge]; distinct = distinct realised cases.")
 ASSUMPTIONS = [
     "triangulated oriented manifold surfaces, min angle >= 8 deg, max angle <= 170 deg; for a vertex field every vertex has a "
@@ -490,28 +497,38 @@ def check_export(case, poly, snap, var, V, medges, order, n_el, elements, ctx, h
         C = np.array([(A3[f[0]] + A3[f[1]] + A3[f[2]]) / 3 for f in case["F"]])
     else:
         C = A3
-    sc = max(L, float(np.max(np.abs(A3))) * 1e-9)
-    for i in range(n_el):
-        if not ctx.check(float(np.linalg.norm(P[n * i] - C[i])) <= 1e-9 * max(sc, float(np.max(np.abs(C[i])))), "export-centre",
-                         f"{hist}element {i}: exported centre {P[n * i].tolist()} is not the element's reference point {C[i].tolist()}"):
+    big = float(np.max(np.abs(A3)))
+    D = P.reshape(n_el, n, 3)
+    cen = D[:, 0, :]
+    tips = D[:, 1:, :] - cen[:, None, :]                      # (n_el, order, 3)
+    dc = np.linalg.norm(cen - C, axis=1)
+    i = int(np.argmax(dc)) if n_el else 0
+    if not ctx.check(n_el == 0 or float(dc[i]) <= 1e-9 * max(L, big), "export-centre",
+                     f"{hist}element {i}: exported centre {cen[i].tolist() if n_el else None} is not the element's reference point "
+                     f"{C[i].tolist() if n_el else None}"):
+        return False
+    m = np.abs(var)
+    ln = np.linalg.norm(tips, axis=2)
+    dl = np.abs(ln - (m * L)[:, None])
+    i, k = np.unravel_index(int(np.argmax(dl)), dl.shape) if dl.size else (0, 0)
+    if not ctx.check(dl.size == 0 or float(dl[i, k]) <= 1e-7 * L + 1e-12 * big, "export-branch-length",
+                     f"{hist}element {i} branch {k + 1}: length {float(ln[i, k]) if dl.size else None!r}, expected |var| * mean edge length / 3 = "
+                     f"{float(m[i] * L) if dl.size else None!r}"):
+        return False
+    live = m > 1e-10
+    if np.any(live):
+        zx = np.einsum("ikj,ij->ik", tips, snap["X"]) + 1j * np.einsum("ikj,ij->ik", tips, snap["Y"])
+        z = zx[live] / (m[live] * L)[:, None]
+        dz = np.abs(z ** order - (var[live] / m[live])[:, None])
+        i, k = np.unravel_index(int(np.argmax(dz)), dz.shape)
+        if not ctx.check(float(dz[i, k]) <= 1e-6, "export-branch-direction",
+                         f"{hist}element {int(np.where(live)[0][i])} branch {k + 1}: direction {z[i, k]} in the element's basis, its power {order} is "
+                         f"{z[i, k] ** order} but var = {var[live][i]}"):
             return False
-        m = abs(var[i])
-        for k in range(1, n):
-            d = P[n * i + k] - P[n * i]
-            if not ctx.check(abs(float(np.linalg.norm(d)) - m * L) <= 1e-7 * L + 1e-12 * float(np.max(np.abs(C[i]))), "export-branch-length",
-                             f"{hist}element {i} branch {k}: length {float(np.linalg.norm(d))!r}, expected |var| * mean edge length / 3 = {m * L!r}"):
-                return False
-            if m <= 1e-10:
-                continue
-            z = complex(float(np.dot(d, snap["X"][i])), float(np.dot(d, snap["Y"][i]))) / (m * L)
-            if not ctx.check(abs(z ** order - var[i] / m) <= 1e-6, "export-branch-direction",
-                             f"{hist}element {i} branch {k}: direction {z} in the element's basis, its power {order} is {z ** order} but var = {var[i]}"):
-                return False
-        tips = [P[n * i + k] - P[n * i] for k in range(1, n)]
-        if m > 1e-10 and order > 1:
-            dmin = min(float(np.linalg.norm(tips[a] - tips[b])) for a in range(order) for b in range(a))
-            if not ctx.check(dmin >= 0.5 * 2 * m * L * math.sin(math.pi / order), "export-branches-coincide",
-                             f"{hist}element {i}: two of the {order} exported branches coincide"):
+        if order > 1:
+            gap = min(float(np.min(np.abs(z[:, a_] - z[:, b_]))) for a_ in range(order) for b_ in range(a_))
+            if not ctx.check(gap >= math.sin(math.pi / order), "export-branches-coincide",
+                             f"{hist}two of the {order} exported branches of an element coincide (smallest gap {gap:.3e})"):
                 return False
     return True
 
@@ -933,34 +950,40 @@ def fn_large(case, ctx):
     fr, fx = np.array(free, dtype=int), np.array(fixed, dtype=int)
     LI = Ls[fr, :][:, fr].tocsc()
     rhs = -(Ls[fr, :][:, fx] @ var0[fx])
-    x = spl.splu(LI).solve(rhs)
-    H = ((LI + LI.conj().T) / 2).tocsc()
-    v0 = np.ones(len(free), dtype=complex)
+    lu = spl.splu(LI)
+    x = lu.solve(rhs)
+    # 1-norm condition estimate from a few extra solves (Hager / Higham; numpy.random is seeded by the runner)
     try:
-        lmax = float(spl.eigsh(H, k=1, which="LA", v0=v0, tol=1e-4, return_eigenvectors=False)[0])
-        lmin = float(spl.eigsh(H, k=1, sigma=0, which="LM", v0=v0, tol=1e-4, return_eigenvectors=False)[0])
+        inv = spl.LinearOperator(LI.shape, matvec=lambda b_: lu.solve(np.asarray(b_, dtype=complex).ravel()),
+                                 rmatvec=lambda b_: lu.solve(np.asarray(b_, dtype=complex).ravel(), "H"), dtype=complex)
+        cond = float(spl.onenormest(LI)) * float(spl.onenormest(inv))
     except Exception:
-        lmin = lmax = float("nan")
+        cond = float("nan")
     ok, _ = ctx.call("run", ff.run)
     if not ok: return
     var = np.array(ff.var, dtype=complex)
     if not ctx.check(var.shape == (n_el,) and bool(np.all(np.isfinite(np.abs(var)))), "var-shape", f"var has shape {var.shape} / non-finite entries"):
         return
     mod = np.abs(var)
-    bad = np.where(np.abs(mod - 1) > TOL_UNIT)[0]
+    forced = np.zeros(n_el, dtype=bool)
+    forced[fr[np.abs(x) <= 1e-9]] = True          # the harness's own un-normalised solution vanishes there (exact symmetry)
+    if np.any(forced & (mod <= 1e-10)):
+        ctx.label("vanishing-element")
+    bad = np.where((np.abs(mod - 1) > TOL_UNIT) & ~(forced & (mod <= 1e-10)))[0]
     if not ctx.check(len(bad) == 0, "not-unit", f"large mesh ({len(free)} free {elements}): |var| != 1 on {bad[:8].tolist()}: {mod[bad][:8].tolist()}"):
         return
     d = np.abs(var[fx] - var0[fx])
     if not ctx.check(float(np.max(d)) <= 1e-9, "constraint-moved", f"large mesh: constrained {elements[:-1]} {fixed[int(np.argmax(d))]} moved by {float(np.max(d)):.3e}"):
         return
-    if not (np.isfinite(lmin) and lmin > 0 and lmax / lmin <= 1e7):
-        ctx.discard("large system: extreme eigenvalues not usable for an error bound")
+    if not (np.isfinite(cond) and cond <= 1e12):
+        ctx.discard("large system: no usable condition estimate")
         return
-    cond = lmax / lmin
-    res = float(np.max(np.abs(LI @ x - rhs)))
-    err = (EPS * cond * float(np.max(np.abs(x))) + res / lmin) / np.maximum(np.abs(x), 1e-300)
+    err = 10 * EPS * cond * float(np.max(np.abs(x))) / np.maximum(np.abs(x), 1e-300)
     okm = (np.abs(x) >= 1e-6) & (err <= TOL_SOLVE / 10)
     ctx.label("compared>=90%" if np.mean(okm) >= 0.9 else "compared<90%")
+    if not np.any(okm):
+        ctx.discard("large system: round-off bound above 1e-9 everywhere (cond %.1e)" % cond)
+        return
     exp_ = x[okm] / np.abs(x[okm])
     got = var[fr[okm]]
     dd = np.abs(exp_ - got)
@@ -1266,7 +1289,7 @@ def self_test():
 SUBCHECKS = [
     SubCheck("field", field_case(), fn_field, quick=2000, thorough=8000),
     SubCheck("sequence", sequence_case(), fn_sequence, quick=320, thorough=1500),
-    SubCheck("large", large_case(), fn_large, quick=8, thorough=12, watchdog=(240, 900)),
+    SubCheck("large", large_case(), fn_large, quick=16, thorough=12, watchdog=(240, 900)),
     SubCheck("renumber_vertices", renumber_case("vertices"), fn_renumber, quick=400, thorough=1500),
     SubCheck("renumber_faces", renumber_case("faces"), fn_renumber, quick=400, thorough=1500),
     SubCheck("laplacian", laplacian_case(), fn_laplacian, quick=480, thorough=1500),
